@@ -40,6 +40,8 @@ var faultScripts = map[string]faultScript{
 	// floods
 	"flood-own-requests-stalled": {[]string{"o:stall", "o:ping*600", "o:close"}, true},
 	"flood-relays-to-stalled":    {[]string{"o:stall", "p:custom*520", "idle"}, true},
+	// ... and one that does come back: back-pressure may delay, never lose or reorder
+	"flood-relays-then-resume": {[]string{"o:stall", "p:custom*600", "o:resume"}, false},
 }
 
 func runFaults(name string, ch vrt.Chooser) explore.Outcome {
@@ -48,6 +50,7 @@ func runFaults(name string, ch vrt.Chooser) explore.Outcome {
 	w, s := r.w, r.w.S
 	o, p := r.o, r.p
 	var env []func()
+	customs := 0
 	for _, a := range fs.Acts {
 		a := a
 		n := 1
@@ -77,7 +80,8 @@ func runFaults(name string, ch vrt.Chooser) explore.Outcome {
 				case "o:badreceipt":
 					o.SendMsg(&hagallpb.ReceiptRequest{Type: hagallpb.MsgType_MSG_TYPE_RECEIPT_REQUEST, Timestamp: w.NextTS(), RequestId: o.NextReqID()})
 				case "p:custom":
-					p.SendMsg(&hagallpb.CustomMessage{Type: hagallpb.MsgType_MSG_TYPE_CUSTOM_MESSAGE, Timestamp: w.NextTS(), Body: []byte("x")})
+					p.SendMsg(&hagallpb.CustomMessage{Type: hagallpb.MsgType_MSG_TYPE_CUSTOM_MESSAGE, Timestamp: w.NextTS(), Body: []byte(fmt.Sprintf("x%d", customs))})
+					customs++
 				case "sync":
 					s.Advance(w.Cfg.SyncInterval)
 				case "idle":
@@ -105,6 +109,22 @@ func runFaults(name string, ch vrt.Chooser) explore.Outcome {
 	r.v.Take()
 	if p != nil {
 		keepNonPing(p)
+	}
+	if name == "flood-relays-then-resume" {
+		// every relay reaches the member that was slow, once, in the order sent
+		next, extra := 0, 0
+		for _, m := range o.All() {
+			if cm, ok := m.Msg.(*hagallpb.CustomMessageBroadcast); ok {
+				if string(cm.Body) == fmt.Sprintf("x%d", next) {
+					next++
+				} else {
+					extra++
+				}
+			}
+		}
+		if next != customs || extra != 0 {
+			r.x.fail("relay", fmt.Sprintf("custom:lost-or-reordered-under-back-pressure:%d-of-%d", next, customs), "a member stopped reading while %d custom messages were relayed to it and then resumed: it received %d of them in order (%d out of order or repeated)", customs, next, extra)
+		}
 	}
 	r.extraDeletes = strings.Count(strings.Join(fs.Acts, " "), "o:eadd")
 	r.judge("script "+name, fs.MustEnd)
@@ -163,6 +183,13 @@ func init() {
 		if tier == "thorough" {
 			b, budget = 2, 1500
 		}
+		// sequences of ordinary ground-plane samples (the grid BFS of C20): a panic in
+		// the index is a crash any client can cause
+		for i := 0; i < 4; i++ {
+			p1, _ := json.Marshal(gridParams{Depth: 2, Alphabet: "small", Shard: i, Shards: 4})
+			p2, _ := json.Marshal(gridParams{Depth: 3, Alphabet: "layers", Shard: i, Shards: 4})
+			jobs = append(jobs, check.Job{Kind: "grid", Name: "GRID:small", Params: p1, BudgetS: budget}, check.Job{Kind: "grid", Name: "GRID:layers", Params: p2, BudgetS: budget})
+		}
 		var names []string
 		for n := range faultScripts {
 			names = append(names, n)
@@ -187,4 +214,14 @@ func init() {
 		}
 		return jobs
 	})
+}
+
+// floodResumeJob: the back-pressure script on its own (C14, C02).
+func floodResumeJob() check.Job {
+	p, _ := json.Marshal(faultParams{Script: "flood-relays-then-resume", Bound: 0})
+	return check.Job{Kind: "c08s3", Name: "S3:fault-flood-relays-then-resume", Params: p, BudgetS: 300, CrashIsViolation: true}
+}
+
+func init() {
+	check.WrapPlanner("C02", func(tier string, jobs []check.Job) []check.Job { return append(jobs, floodResumeJob()) })
 }
